@@ -231,6 +231,7 @@ func report(w *World, sum *propSummary, cfg RunConfig, verif string, seed int, w
 		default:
 			if f := findings.match(sum.ID, o.Name); f != nil {
 				e.Status = "known-finding"
+				nObl-- // reported separately: not part of what this run claims to have proved
 				known = append(known, fmt.Sprintf("KNOWN-FINDING: property=%s obligation=%s :: %s", sum.ID, o.Name, f.what))
 			} else {
 				violations = append(violations, o)
